@@ -28,6 +28,7 @@ def run(ctx):
     r2 = S.registry(lg)
     r2.log = lg
     dsl.verify(ctx, repo, r2, "C19.subtree", S.SUB + ".sample_tree", S.h_subtree_prefix, expect_covers=S.SUB_COVERS)
+    dsl.verify(ctx, repo, dsl.Registry(), "C19.subtree", S.SUB + "._correct_weights", S.h_correct_weights, expect_covers=S.CORRECT_COVERS)
     dsl.verify(ctx, repo, B.registry(), "C19.boot", [B.SAMPLE, B.LOGP], B.harness, expect_covers=B.COVERS, concretise=B.concretise)
     common.adapted_contracts(ctx, repo, "C19")
     from contracts import c01_std as STD
